@@ -338,6 +338,15 @@ class Evaluator:
                     in_body = any(second is x for s in st.body for x in ast.walk(s))
                     sa, sb = self.string(second.value, depth + 1), self.string(first.value, depth + 1)
                     return Alt(st.test, sa, sb) if in_body else Alt(st.test, sb, sa)
+            # guard clause:  if t: x = A; <leave> ... x = B     (the statements after the if are its else branch)
+            for st in self._enclosing(first):
+                if isinstance(st, ast.If) and not getattr(st, "_inline_block", False) and not any(second is x for x in ast.walk(st)):
+                    in_body = any(first is x for s in st.body for x in ast.walk(s))
+                    branch = st.body if in_body else st.orelse
+                    if branch and _leaves(branch[-1]):
+                        sa, sb = self.string(first.value, depth + 1), self.string(second.value, depth + 1)
+                        return Alt(st.test, sa, sb) if in_body else Alt(st.test, sb, sa)
+                    break
         return Unk(f"{len(plain)} definitions of {use.id}", use)
 
     # ------------------------------------------------------------------ sequences
@@ -525,6 +534,12 @@ class Evaluator:
         if conds:
             raise NotInterpretable("conditional append outside a loop")
         return new
+
+
+def _leaves(st: ast.stmt) -> bool:
+    """the statement transfers control away (return / raise / continue / break / the jump that ends a helper analysed in place)"""
+    from .cfg import InlineJump
+    return isinstance(st, (ast.Return, ast.Raise, ast.Continue, ast.Break, InlineJump))
 
 
 def _merge(items: list, new: list) -> list:
